@@ -187,6 +187,11 @@ def msg_hash(ch: Choices, label: str, hostile: bool) -> tuple[str, Any]:
     """The 32-octet argument of the underscore (pre-hashed) ECDSA entry points."""
     m = ch.nbytes(32, label)
     if not hostile:
+        # a digest is any 32 octets: as an integer it may reach or exceed the group order (2^-128 of real
+        # digests, and the class where "reduce the challenge mod n" is the only thing that differs)
+        k = ch.draw(8, label + ".edge")
+        if k >= 5:
+            m = b32([N, N + 1 + ch.draw(1000, label + ".above"), 2**256 - 1 - ch.draw(1000, label + ".top")][k - 5])
         return "valid", (m, m.hex())[ch.draw(4, label + ".form") == 3]
     cls = ch.pick(["hash-31-bytes", "hash-33-bytes", "hash-empty"], label + ".cls")
     return cls, {"hash-31-bytes": m[1:], "hash-33-bytes": m + b"\x00", "hash-empty": b""}[cls]
